@@ -97,14 +97,22 @@ def make_mesh(name, seed=0):
     return Mesh.from_triangulation(pts, tris)
 
 
-def symbolise(mesh, H, lengths=True, prefix=""):
+def symbolise(mesh, H, lengths=True, prefix="", length_band=None):
     """Overwrite the weight arrays of a real mesh by harness inputs (positive reals)."""
     em = mesh.edge_mesh
     ns, ne = len(mesh.sites), len(em.edges)
-    mesh.areas = H.reals(prefix + "a", ns, pos=True, jitter=True)
-    if lengths:
-        em.edge_lengths = H.reals(prefix + "e", ne, pos=True, jitter=True)
-    em.dual_edge_lengths = H.reals(prefix + "s", ne, pos=True, jitter=True)
+    # weights range over [1e-3, 1e3] (dimensionless units of xi): keeps counter-example models
+    # replayable in double precision
+    W = dict(lo=1e-3, hi=1e3, jitter=True)
+    mesh.areas = H.reals(prefix + "a", ns, **W)
+    if lengths and length_band is not None:
+        # symbolic lengths within a band around the geometric ones (keeps length comparisons,
+        # e.g. the ordering of terminals, mostly decided while the lengths stay symbolic)
+        geo = [float(x) for x in em.edge_lengths]
+        em.edge_lengths = H.array([H.real(f"{prefix}e{i}", lo=(1 - length_band) * geo[i], hi=(1 + length_band) * geo[i], jitter=True) for i in range(ne)])
+    elif lengths:
+        em.edge_lengths = H.reals(prefix + "e", ne, **W)
+    em.dual_edge_lengths = H.reals(prefix + "s", ne, **W)
     return mesh
 
 
